@@ -356,7 +356,10 @@ void ExecImpl::op_call(const Op& op) {
     if (!real_rejected) {
       // (reported as a violation and given an OK report at the same time: that is also C16's business)
       const bool ok_and_report = !o.oks.empty() && !o.reports.empty();
-      fail((kind_props("C01") + (ok_and_report ? ",C16" : "")).c_str(), "accepted_but_model_rejects",
+      // (reported, but not with severity fatal, so that the reporter returned and the call went on: C15's business too)
+      bool soft_report = false;
+      for (auto& r : o.reports) if (!r.fatal) soft_report = true;
+      fail((kind_props("C01") + (ok_and_report ? ",C16" : "") + (soft_report ? ",C15" : "")).c_str(), "accepted_but_model_rejects",
            std::string("call was accepted (") + outcome_name(o.outcome) + " " + std::to_string(o.value) + o.sval + ") but the model rejects it as " +
            (cat == NOMATCH ? "no-match" : cat == FORBIDDEN ? "forbidden" : "sequence mismatch") + "; " + call_desc());
       return;
